@@ -77,6 +77,28 @@ func B(b []byte) string {
 	return fmt.Sprintf("(h2b \"%x\")", b)
 }
 
+// BLong prints a long value whose head is periodic (period up to 32) as (cyc unit n ++ rest): a literal of
+// tens of thousands of bytes costs seconds in coqc.
+func BLong(b []byte) string {
+	if len(b) < 2000 {
+		return B(b)
+	}
+	bestP, bestL := 0, 0
+	for period := 1; period <= 32; period++ {
+		l := period
+		for l < len(b) && b[l] == b[l-period] {
+			l++
+		}
+		if l > bestL {
+			bestP, bestL = period, l
+		}
+	}
+	if bestL < 1000 {
+		return B(b)
+	}
+	return fmt.Sprintf("(cyc %s %d ++ %s)", B(b[:bestP]), bestL, B(b[bestL:]))
+}
+
 func S(s string) string { return B([]byte(s)) }
 
 func Bool(b bool) string {
